@@ -301,7 +301,146 @@ def gen_stoptests():
     return "\n".join(L) + "\n"
 
 
-GENERATORS = {"Consts.v": gen_consts, "StopTests.v": gen_stoptests}
+# ----------------------------------------------------------------------------- Handlers.v / purity scan
+SAFE_ROOTS = {"np", "numpy", "math", "copy", "logging"}
+SAFE_BUILTINS = {"len", "range", "float", "int", "abs", "min", "max", "isinstance", "str", "repr", "zip", "enumerate", "list", "tuple", "bool",
+                 "ValueError", "TypeError", "IndexError", "RuntimeError", "AssertionError"}
+GLOBAL_MUTATORS = {"np.seterr", "np.seterrcall", "np.errstate", "np.set_printoptions", "np.random.seed", "numpy.seterr", "warnings.filterwarnings",
+                   "warnings.simplefilter", "warnings.resetwarnings", "logging.basicConfig", "logging.disable", "random.seed", "sys.setrecursionlimit",
+                   "os.chdir", "os.putenv", "os.environ.update", "os.environ.setdefault", "np.random.set_state", "sys.settrace", "sys.setprofile",
+                   "logging.setLoggerClass", "np.setbufsize", "gc.disable", "gc.enable", "signal.signal"}
+
+
+def _call_root(func):
+    """('np', dotted) for np.a.b, ('<call>', inner) for f(...).m, ('name', id) for a plain name."""
+    n = func
+    while isinstance(n, ast.Attribute):
+        n = n.value
+    if isinstance(n, ast.Name):
+        return "name", n.id
+    if isinstance(n, ast.Call):
+        return "call", n
+    return "other", None
+
+
+def _call_is_safe(call):
+    kind, root = _call_root(call.func)
+    if kind == "name":
+        if isinstance(call.func, ast.Name):
+            return root in SAFE_BUILTINS
+        return root in SAFE_ROOTS
+    if kind == "call":
+        return _call_is_safe(root)
+    return False
+
+
+def gen_handlers():
+    """Every try/except, `with` and `raise ... from` site of the package, and which of them may enclose a call
+    that is not to a whitelisted library function (i.e. may reach a user callable); every call to a function
+    that changes process-wide state; every module-level mutable object that some function writes."""
+    L = ["(* GENERATED from /repo/lbfgsb/*.py by harness/translate.py - do not edit *)",
+         "From Coq Require Import String List.", "Import ListNotations.", "Local Open Scope string_scope.", ""]
+    sites, unsafe, withs, mutators, globwrites = [], [], [], [], []
+    for fn in sorted(os.listdir(PKG)):
+        if not fn.endswith(".py"):
+            continue
+        tree = ast.parse(_src(fn))
+        parents = {}
+        for node in ast.walk(tree):
+            for ch in ast.iter_child_nodes(node):
+                parents[ch] = node
+
+        def func_of(n):
+            while n in parents:
+                n = parents[n]
+                if isinstance(n, (ast.FunctionDef, ast.AsyncFunctionDef)):
+                    return n.name
+            return "<module>"
+
+        # module-level names bound to mutable objects (lists, dicts, sets, calls) and class attributes
+        modnames = set()
+        for st in tree.body:
+            if isinstance(st, ast.Assign):
+                for t in st.targets:
+                    if isinstance(t, ast.Name):
+                        modnames.add(t.id)
+            elif isinstance(st, ast.ClassDef):
+                modnames.add(st.name)
+        for node in ast.walk(tree):
+            if isinstance(node, ast.Try):
+                classes = []
+                for h in node.handlers:
+                    classes.append(ast.unparse(h.type) if h.type is not None else "<bare>")
+                body_src = "; ".join(ast.unparse(b) for b in node.body)
+                calls = [c for b in node.body for c in ast.walk(b) if isinstance(c, ast.Call)]
+                bad = [ast.unparse(c.func) for c in calls if not _call_is_safe(c)]
+                swallow = any(not any(isinstance(x, ast.Raise) for x in ast.walk(ast.Module(body=h.body, type_ignores=[]))) for h in node.handlers)
+                sites.append((fn, func_of(node), ", ".join(classes), body_src))
+                if bad or node.finalbody and any(isinstance(x, ast.Return) for b in node.finalbody for x in ast.walk(b)):
+                    unsafe.append((fn, func_of(node), ", ".join(classes), ", ".join(bad) or "return in finally"))
+            elif isinstance(node, (ast.With, ast.AsyncWith)):
+                for it in node.items:
+                    withs.append((fn, func_of(node), ast.unparse(it.context_expr)))
+            elif isinstance(node, ast.Call):
+                name = ast.unparse(node.func)
+                if name in GLOBAL_MUTATORS or name.endswith(".seterr") or name.endswith(".simplefilter") or name.endswith(".filterwarnings"):
+                    # scoped uses are not leaks: np.errstate(...) as the context expression of a `with`, and warning
+                    # filters installed lexically inside `with warnings.catch_warnings()`
+                    par = parents.get(node)
+                    scoped = name.endswith("errstate") and isinstance(par, ast.withitem)
+                    q = node
+                    while q in parents and not scoped:
+                        q = parents[q]
+                        if isinstance(q, ast.With) and any(ast.unparse(i.context_expr).startswith("warnings.catch_warnings") for i in q.items) \
+                                and ("warnings" in name):
+                            scoped = True
+                    if not scoped:
+                        mutators.append((fn, func_of(node), name))
+            elif isinstance(node, (ast.Global, ast.Nonlocal)) and isinstance(node, ast.Global):
+                globwrites.append((fn, func_of(node), "global " + ", ".join(node.names)))
+            # stores into module-level objects / class attributes from inside a function
+            if isinstance(node, (ast.Assign, ast.AugAssign, ast.AnnAssign)) and func_of(node) != "<module>":
+                tgts = node.targets if isinstance(node, ast.Assign) else [node.target]
+                for t in tgts:
+                    base = t
+                    while isinstance(base, (ast.Attribute, ast.Subscript)):
+                        base = base.value
+                    if isinstance(base, ast.Name) and base.id in modnames and not isinstance(t, ast.Name):
+                        globwrites.append((fn, func_of(node), ast.unparse(t)))
+            if isinstance(node, ast.FunctionDef):
+                # mutable default arguments that the function writes into
+                defaults = {}
+                pos = node.args.args[len(node.args.args) - len(node.args.defaults):]
+                for a, d in list(zip(pos, node.args.defaults)) + [(a, d) for a, d in zip(node.args.kwonlyargs, node.args.kw_defaults) if d is not None]:
+                    if isinstance(d, (ast.Call, ast.List, ast.Dict, ast.Set)):
+                        defaults[a.arg] = ast.unparse(d)
+                for sub in ast.walk(node):
+                    if isinstance(sub, (ast.Assign, ast.AugAssign)):
+                        for t in (sub.targets if isinstance(sub, ast.Assign) else [sub.target]):
+                            base = t
+                            while isinstance(base, (ast.Attribute, ast.Subscript)):
+                                base = base.value
+                            if isinstance(base, ast.Name) and base.id in defaults and not isinstance(t, ast.Name):
+                                globwrites.append((fn, node.name, f"default argument {base.id}={defaults[base.id]}: {ast.unparse(t)}"))
+
+    def lst(rows):
+        return "[" + ";\n  ".join("(" + ", ".join(coq_string(x) for x in r) + ")" for r in rows) + "]"
+
+    L.append("(* (file, function, exception classes caught, source of the guarded block) *)")
+    L.append("Definition except_sites : list (string * string * string * string) :=\n  " + lst(sites) + ".")
+    L.append("(* handler sites whose guarded block contains a call that is not to a whitelisted library function,\n   i.e. that may enclose a user callable: (file, function, classes, offending calls) *)")
+    L.append("Definition except_sites_reaching_user_code : list (string * string * string * string) :=\n  " + lst(unsafe) + ".")
+    L.append("Definition with_sites : list (string * string * string) :=\n  " + lst(withs) + ".")
+    L.append("(* context managers that can swallow an exception *)")
+    L.append("Definition suppressing_with_sites : list (string * string * string) :=\n  " + lst([w for w in withs if "suppress" in w[2] or "ExitStack" in w[2]]) + ".")
+    L.append("(* calls that change process-wide state (numpy error state, warning filters, logging configuration, PRNG seeds, ...) *)")
+    L.append("Definition global_state_mutator_calls : list (string * string * string) :=\n  " + lst(mutators) + ".")
+    L.append("(* writes, from inside a function, into module-level objects, class attributes or mutable default arguments *)")
+    L.append("Definition shared_write_sites : list (string * string * string) :=\n  " + lst(globwrites) + ".")
+    return "\n".join(L) + "\n"
+
+
+GENERATORS = {"Consts.v": gen_consts, "StopTests.v": gen_stoptests, "Handlers.v": gen_handlers}
 
 
 def generate():
